@@ -131,7 +131,14 @@ impl Zonefile {
     ) -> Result<Self, std::io::Error> {
         let mut buf = Self::new().writer();
         std::io::copy(read, &mut buf)?;
-        Ok(buf.into_inner())
+        let mut res = buf.into_inner();
+
+        // We have all the data there is. Make sure the last line ends in a
+        // line feed, otherwise the last entry would be considered incomplete.
+        if res.buf.buf.last() != Some(&b'\n') {
+            res.extend_from_slice(b"\n");
+        }
+        Ok(res)
     }
 
     /// Get the current offset into the zonefile
